@@ -5,7 +5,8 @@
 //   family striped|split|feldman
 //   cfg ...      striped: <log2 initial capacity> <policy kind 0 load factor / 1 single bucket threshold> <n> <container 0 list / 1 set / 2 slist>
 //                split:   <estimated item count> <load factor> <dynamic bucket table 0/1> <ordered list 0 michael / 1 lazy>
-//                feldman: <head bits> <array bits> <hash width 16/32>
+//                         <contains-sweep over all keys after every operation 0/1>
+//                feldman: <head bits> <array bits> <hash width 8/16/32/64>
 //   hash v0 v1 ...
 //   ops <c> <key> ...     1 insert, 2 erase, 3 find
 //   end
@@ -13,10 +14,24 @@
 // then   final <keys met by iteration / clear_and_dispose, in that order>   and   endcase.
 // For feldman the key of the set is the hash value itself: two keys with equal hashes are the same element; found=
 // lists the keys q whose hash is contained.
+//
+// Layout lines (compared verbatim with the output of the extracted SplitSeq / FeldmanSeq models, ocaml/c17_main.ml):
+//  split    cap <m_Buckets.capacity()> lf <m_Buckets.load_factor()>                          once, after construction
+//           op <j> ... lg=<m_nBucketCountLog2> ... found=<sweep result, empty without sweep>
+//           lay <j> max=<m_nMaxItemCount|inf> new=<buckets created by the op> rec=<recursive init_bucket calls of the op>
+//                   list=<m_nHash:is_dummy:key;...> buckets=<b:position of the node bucket b points to,...>
+//                   (walk of m_List from begin() to end() through a derived class, dummy nodes included; key of a dummy = 0)
+//           lay2 <j> list=... buckets=...                   after the sweep (sweep = 1 only)
+//           finalfound <k,..> / finallay list=.. buckets=..   closing sweep (always) and the layout after it
+//  feldman  met <log2 head_size()> <log2 array_node_size()>
+//           tree <j> <walk from head(): _ empty slot, <hash> data slot, [ ... ] array slot>
+//           ls <j> <get_level_statistics(): array_node_count:data_cell_count:array_cell_count:empty_cell_count per level>
+//           finalh <hashes met by iteration begin()..end()>
 #include <cstring>
 #include <cstdio>
 #include <cstdlib>
 #include <cstdint>
+#include <limits>
 #include <deque>
 #include <iostream>
 #include <sstream>
@@ -62,13 +77,19 @@ struct less_key {
 };
 
 template <typename Set>
-static void print_op( size_t j, int res, Set& s, unsigned lg, size_t nkeys )
+static void print_found( Set& s, size_t nkeys )
 {
-    std::printf( "op %zu res=%d size=%zu lg=%u dropped= found=", j, res, s.size(), lg );
     bool first = true;
     for ( size_t q = 0; q < nkeys; ++q )
         if ( s.contains( (int) q )) { std::printf( first ? "%zu" : ",%zu", q ); first = false; }
     std::printf( "\n" );
+}
+
+template <typename Set>
+static void print_op( size_t j, int res, Set& s, unsigned lg, size_t nkeys, bool sweep = true )
+{
+    std::printf( "op %zu res=%d size=%zu lg=%u dropped= found=", j, res, s.size(), lg );
+    print_found( s, sweep ? nkeys : 0 );
 }
 
 // ---------------------------------------------------------------------------------------------- striped
@@ -135,22 +156,79 @@ namespace split {
 
     template <typename OrdNode> struct item : public ci::split_list::node<OrdNode> { int key; explicit item( int k ) : key( k ) {} };
 
+    // access to the protected parts of the real container: the ordered list with its dummy nodes, the bucket table,
+    // m_nBucketCountLog2 and m_nMaxItemCount
+    template <typename Set>
+    struct probe : public Set
+    {
+        typedef typename Set::node_traits nt;
+        probe( size_t n, size_t lf ) : Set( n, lf ) {}
+
+        size_t capacity() const { return this->m_Buckets.capacity(); }
+        size_t load_factor() const { return this->m_Buckets.load_factor(); }
+        unsigned lg() const { return (unsigned) this->m_nBucketCountLog2.load( atomics::memory_order_relaxed ); }
+        size_t max_items() const { return this->m_nMaxItemCount.load( atomics::memory_order_relaxed ); }
+        size_t new_buckets() const { return (size_t) this->m_Stat.m_nBucketCount.get(); }
+        size_t recursive_inits() const { return (size_t) this->m_Stat.m_nInitBucketRecursive.get(); }
+
+        std::string layout()
+        {
+            std::vector<void const *> addr;
+            std::string o = "list=";
+            for ( auto it = this->m_List.begin(); it != this->m_List.end(); ++it ) {
+                auto const * n = nt::to_node_ptr( *it );
+                bool d = n->is_dummy();
+                if ( !addr.empty()) o += ";";
+                o += std::to_string( (unsigned long long) n->m_nHash ) + ( d ? ":1:" : ":0:" ) + std::to_string( d ? 0 : it->key );
+                addr.push_back( static_cast<void const *>( n ));
+            }
+            o += " buckets=";
+            bool first = true;
+            for ( size_t b = 0; b < capacity(); ++b ) {
+                auto * aux = this->m_Buckets.bucket( b );
+                if ( !aux ) continue;
+                void const * p = static_cast<void const *>( static_cast<typename Set::node_type const *>( aux ));
+                size_t pos = 0;
+                while ( pos < addr.size() && addr[pos] != p ) ++pos;
+                if ( !first ) o += ",";
+                o += std::to_string( b ) + ":" + std::to_string( pos );
+                first = false;
+            }
+            return o;
+        }
+    };
+
     template <typename Set, typename Item>
     static void run( CaseIn const& c )
     {
         std::deque<Item> pool;
         std::vector<int> fin;
+        bool sweep = c.cfg.size() > 4 ? c.cfg[4] != 0 : true;
         {
-            Set s( (size_t) c.cfg[0], (size_t) c.cfg[1] );
+            probe<Set> s( (size_t) c.cfg[0], (size_t) c.cfg[1] );
+            std::printf( "cap %zu lf %zu\n", s.capacity(), s.load_factor());
             for ( size_t j = 0; j + 1 < c.ops.size(); j += 2 ) {
                 int k = (int) c.ops[j + 1], res = 0;
+                size_t nb0 = s.new_buckets(), rec0 = s.recursive_inits();
                 switch ( c.ops[j] ) {
                 case 1: pool.emplace_back( k ); res = s.insert( pool.back()) ? 1 : 0; break;
                 case 2: res = s.erase( k ) ? 1 : 0; break;
                 default: res = s.contains( k ) ? 1 : 0; break;
                 }
-                print_op( j / 2, res, s, 0, g_hash.size());
+                // everything below is read BEFORE the sweep: contains() initialises buckets
+                size_t nb1 = s.new_buckets(), rec1 = s.recursive_inits(), sz = s.size(), mx = s.max_items();
+                unsigned lg = s.lg();
+                std::string lay = s.layout();
+                std::printf( "op %zu res=%d size=%zu lg=%u dropped= found=", j / 2, res, sz, lg );
+                print_found( s, sweep ? g_hash.size() : 0 );
+                if ( mx == std::numeric_limits<size_t>::max()) std::printf( "lay %zu max=inf", j / 2 );
+                else std::printf( "lay %zu max=%zu", j / 2, mx );
+                std::printf( " new=%zu rec=%zu %s\n", nb1 - nb0, rec1 - rec0, lay.c_str());
+                if ( sweep ) std::printf( "lay2 %zu %s\n", j / 2, s.layout().c_str());
             }
+            std::printf( "finalfound " );
+            print_found( s, g_hash.size());
+            std::printf( "finallay %s\n", s.layout().c_str());
             for ( auto it = s.begin(); it != s.end(); ++it ) fin.push_back( it->key );
         }
         gc_type::force_dispose();
@@ -162,6 +240,7 @@ namespace split {
     template <bool Dynamic> struct set_traits : public ci::split_list::traits {
         typedef tab_hash hash;
         typedef cds::atomicity::item_counter item_counter;
+        typedef ci::split_list::stat<> stat;
         enum { dynamic_bucket_table = Dynamic };
     };
 
@@ -203,6 +282,32 @@ namespace feldman {
     template <typename H> struct item { int key; H hash; item( int k, H h ) : key( k ), hash( h ) {} };
     template <typename H> struct accessor { H const& operator()( item<H> const& i ) const { return i.hash; } };
 
+    // access to the protected array nodes of the real container
+    template <typename Set>
+    struct probe : public Set
+    {
+        typedef typename Set::array_node array_node;
+        typedef typename Set::node_ptr   node_ptr;
+        probe( size_t h, size_t a ) : Set( h, a ) {}
+
+        void walk( array_node * arr, size_t n, std::string& o )
+        {
+            for ( size_t i = 0; i < n; ++i ) {
+                node_ptr slot = arr->nodes[i].load( atomics::memory_order_relaxed );
+                if ( !o.empty()) o += " ";
+                if ( slot.bits() == Set::flag_array_node ) {
+                    o += "[";
+                    walk( Set::to_array( slot.ptr()), this->array_node_size(), o );
+                    o += " ]";
+                }
+                else if ( slot.bits()) o += "converting";
+                else if ( slot.ptr()) o += std::to_string( (unsigned long long) slot.ptr()->hash );
+                else o += "_";
+            }
+        }
+        std::string tree() { std::string o; walk( this->head(), this->head_size(), o ); return o; }
+    };
+
     template <typename H>
     static void run( CaseIn const& c )
     {
@@ -214,9 +319,11 @@ namespace feldman {
         typedef ci::FeldmanHashSet< gc_type, item<H>, traits > set_t;
         std::deque< item<H> > pool;
         std::vector<int> fin;
+        std::vector<unsigned long long> finh;
         size_t nkeys = g_hash.size();
         {
-            set_t s( (size_t) c.cfg[0], (size_t) c.cfg[1] );
+            probe<set_t> s( (size_t) c.cfg[0], (size_t) c.cfg[1] );
+            std::printf( "met %u %u\n", log2u( s.head_size()), log2u( s.array_node_size()));
             for ( size_t j = 0; j + 1 < c.ops.size(); j += 2 ) {
                 int k = (int) c.ops[j + 1], res = 0;
                 H hv = (H) g_hash[(size_t) k];
@@ -230,18 +337,32 @@ namespace feldman {
                 for ( size_t q = 0; q < nkeys; ++q )
                     if ( s.contains( (H) g_hash[q] )) { std::printf( first ? "%zu" : ",%zu", q ); first = false; }
                 std::printf( "\n" );
+                std::printf( "tree %zu %s\n", j / 2, s.tree().c_str());
+                std::vector< ci::feldman_hashset::level_statistics > st;
+                s.get_level_statistics( st );
+                std::printf( "ls %zu ", j / 2 );
+                for ( size_t l = 0; l < st.size(); ++l )
+                    std::printf( l ? ",%zu:%zu:%zu:%zu" : "%zu:%zu:%zu:%zu", st[l].array_node_count, st[l].data_cell_count, st[l].array_cell_count, st[l].empty_cell_count );
+                std::printf( "\n" );
             }
-            for ( auto it = s.begin(); it != s.end(); ++it ) fin.push_back( it->key );
+            for ( auto it = s.begin(); it != s.end(); ++it ) { fin.push_back( it->key ); finh.push_back( (unsigned long long) it->hash ); }
         }
         gc_type::force_dispose();
-        std::printf( "final" );
+        std::printf( "finalh" );
+        for ( unsigned long long h : finh ) std::printf( " %llu", h );
+        std::printf( "\nfinal" );
         for ( int k : fin ) std::printf( " %d", k );
         std::printf( "\n" );
     }
 
     static void run_case( CaseIn const& c )
     {
-        if ( c.cfg.size() > 2 && c.cfg[2] == 16 ) run<uint16_t>( c ); else run<uint32_t>( c );
+        switch ( c.cfg.size() > 2 ? c.cfg[2] : 32 ) {
+        case 8:  run<uint8_t>( c ); break;
+        case 16: run<uint16_t>( c ); break;
+        case 64: run<uint64_t>( c ); break;
+        default: run<uint32_t>( c ); break;
+        }
     }
 }
 
@@ -260,7 +381,7 @@ int main()
             if ( kw == "case" ) { c = CaseIn(); ss >> c.id; g_hash.clear(); }
             else if ( kw == "family" ) { ss >> c.family; }
             else if ( kw == "cfg" ) { while ( ss >> v ) c.cfg.push_back( v ); }
-            else if ( kw == "hash" ) { while ( ss >> v ) g_hash.push_back( (size_t) v ); }
+            else if ( kw == "hash" ) { unsigned long long u; while ( ss >> u ) g_hash.push_back( (size_t) u ); }
             else if ( kw == "ops" ) { while ( ss >> v ) c.ops.push_back( v ); }
             else if ( kw == "end" ) {
                 std::printf( "case %s\n", c.id.c_str());
